@@ -5,9 +5,10 @@ patch=$1; shift
 cd /repo || exit 2
 git diff --quiet || { echo "/repo has uncommitted changes"; exit 2; }
 git apply "$patch" || { echo "patch does not apply"; exit 2; }
-trap 'git -C /repo checkout -- . ; git -C /repo clean -fdq -- . 2>/dev/null' EXIT
+trap 'git -C /repo checkout -- . ; git -C /repo clean -fdq -- . 2>/dev/null; rm -rf "$VCHECK_EVIDENCE_DIR"' EXIT
 go build ./kvgraph/ ./engine/... ./kvindex/ ./gripql/ ./server/ 2>&1 | grep -v main_main | head -3
 cd /verif
+export VCHECK_EVIDENCE_DIR=$(mktemp -d /tmp/vcheck-seed-evidence.XXXXXX)
 for p in "$@"; do
   out=$(timeout 1500 ./bin/vcheck run $p ${VCHECK_ARGS:-} 2>&1)
   rc=$?
